@@ -402,7 +402,13 @@ type frozenMon struct {
 	// end, so each change is attributed to the one goroutine that ran since the previous comparison.
 	mode  int
 	depth map[int]int
+	// atomic[pid]: the goroutine has performed an atomic operation in its current API call
+	atomic    map[int]bool
+	tolerated int
 }
+
+// endCall is called when an API call of goroutine pid has returned.
+func (m *frozenMon) endCall(pid int) { delete(m.atomic, pid) }
 
 func (m *frozenMon) check(w *mc.World, pid int, where string) {
 	if m.mode == 0 {
@@ -415,6 +421,10 @@ func (m *frozenMon) check(w *mc.World, pid int, where string) {
 	m.h0 = h
 	if m.mode == 2 {
 		if m.depth[pid] > 0 {
+			return
+		}
+		if m.atomic[pid] {
+			m.tolerated++
 			return
 		}
 		w.Violate("C19", "frozen:shared-state-written-outside-any-lock@"+where, fmt.Sprintf("goroutine %d changed the shared object graph (or a package-level variable) during %s while holding no exclusive lock; two goroutines doing this race", pid, where))
@@ -433,6 +443,16 @@ func (m *frozenMon) onSync(w *mc.World, pid int, kind, where string) {
 		if m.depth[pid] > 0 {
 			m.depth[pid]--
 		}
+	case "atomic-op":
+		// changes made BEFORE the first atomic operation of the call are judged like any other
+		m.check(w, pid, where)
+		// From here to the end of the API call the goroutine is taken to synchronise through atomics (a flag it
+		// set with CompareAndSwap may protect plain data, a pointer it is about to Store may publish what it
+		// builds): what it changes is not judged from the object graph. Interleavings ARE explored - every atomic
+		// operation is a scheduling point - and judged by the results.
+		m.atomic[pid] = true
+	case "atomic-done":
+		m.check(w, pid, where)
 	default:
 		m.check(w, pid, where)
 	}
@@ -469,7 +489,7 @@ func explore(f *fixture, progs []program, want [][]string, frozen int) *comboRes
 		}
 		w.Procs = nil
 		curShared = sh
-		fm := &frozenMon{sh: sh, mode: frozen, depth: map[int]int{}}
+		fm := &frozenMon{sh: sh, mode: frozen, depth: map[int]int{}, atomic: map[int]bool{}}
 		fm.h0 = sh.hash()
 		if frozen == 2 {
 			where := func(p *mc.Proc) string {
@@ -501,6 +521,7 @@ func explore(f *fixture, progs []program, want [][]string, frozen int) *comboRes
 						out = step()
 					}()
 					fm.check(w, pi, p.Name)
+					fm.endCall(pi)
 					if si < len(want[pi]) && out != want[pi][si] {
 						w.Violate("C19", "results:differ-from-sequential@"+p.Name, fmt.Sprintf("%s: goroutine %d (%s) step %d returned %q, alone it returns %q", label, pi, p.Name, si, out, want[pi][si]))
 					}
@@ -668,12 +689,9 @@ func main() {
 			json.Unmarshal(b, &br)
 			syncImports = br.SyncImports
 			if len(br.SyncImports) > 0 {
-				frozen = 2 // lock-aware
-				for _, si := range br.SyncImports {
-					if strings.HasSuffix(si, ":sync/atomic") {
-						frozen = 0 // lock-free writes are legitimate: not decidable from the object graph
-					}
-				}
+				// lock-aware; with sync/atomic (shim/vatomic) also atomic-aware: the write an atomic operation
+				// makes is accepted, every other change needs an exclusive lock
+				frozen = 2
 			}
 		}
 	}
@@ -894,7 +912,7 @@ func main() {
 		}
 		return n
 	}()
-	cov["frozen_state_invariant"] = map[string]interface{}{"evaluated": frozen != 0, "mode": map[int]string{0: "off (package uses sync/atomic)", 1: "strict: no read may write to the shared object graph (package has no synchronisation)", 2: "lock-aware: the shared graph may change only while the writing goroutine holds an exclusive lock of the sync shim"}[frozen], "sync_imports_in_package": syncImports}
+	cov["frozen_state_invariant"] = map[string]interface{}{"evaluated": frozen != 0, "mode": map[int]string{0: "off", 1: "strict: no read may write to the shared object graph (package has no synchronisation)", 2: "lock-aware: the shared graph may change only while the writing goroutine holds an exclusive lock of the sync shim, or through an atomic operation of the sync/atomic shim (that operation's own write only)"}[frozen], "sync_imports_in_package": syncImports}
 	cov["race_detector_pass_supplementary"] = raceStatus
 	cov["distinct_outcomes_total"] = outcomes
 	cov["rule"] = "for each fixture (Reader over memory with 128-byte blocks, unaligned, file-backed sha256, file-backed with three 128 KiB blocks; Merged of three readers) every ordered pair of the 8 read programs and selected triples (thorough: all unordered triples without the long log scan) runs as goroutines sharing one object under the controlled scheduler, with scheduling points at every API call and every ReadBlock/ReadAt; ALL interleavings are explored (state cache on per-goroutine observation history + deep hash of the shared object). Non-trivial = every execution beyond the first of a combination (a different interleaving)"
@@ -920,7 +938,7 @@ func main() {
 	run.Assumptions = []string{
 		"observable half of C19 (results equal sequential; shared state never written by reads when the package has no synchronisation) is decided exhaustively at ReadBlock/API-call granularity",
 		"'no data race in the Go memory model' for writes that leave no trace in the object graph is not decidable by a cooperative scheduler; the race-detector pass is complementary sampling and is labelled as such (a report is a real race, silence is not evidence)",
-		"if the package imports sync, its primitives are replaced by shim/vsync: blocking operations are scheduling points with an enabledness condition (all acquisition orders explored, deadlock reported), and the frozen-state invariant becomes lock-aware (a change of the shared object graph is legitimate only while the changing goroutine holds an exclusive lock); if it imports sync/atomic the invariant is not evaluated; channels and sync.Cond are not modelled",
+		"if the package imports sync, its primitives are replaced by shim/vsync: blocking operations are scheduling points with an enabledness condition (all acquisition orders explored, deadlock reported), and the frozen-state invariant becomes lock-aware (a change of the shared object graph is legitimate only while the changing goroutine holds an exclusive lock); sync/atomic is replaced by shim/vatomic: every atomic operation is a scheduling point; a goroutine that used an atomic operation in its current call is not judged by the frozen-state invariant (results still are); channels and sync.Cond are not modelled",
 	}
 	os.Exit(run.Finish())
 }
